@@ -66,8 +66,12 @@ func c04cprefix(m *Map[int, int], keys []int) c04state {
 		st.has[i], st.val[i] = true, v
 	}
 	promote := func() { m.Range(func(int, int) bool { return true }) }
-	switch vChoose("prefix", 6) {
+	switch vChoose("prefix", 7) {
 	case 0:
+	case 6: // promoted by misses (missLocked) rather than by Range
+		set(0)
+		m.Load(keys[0])
+		vCover("conc prefix: promoted by a miss")
 	case 1:
 		set(0)
 		vCover("conc prefix: x dirty-only")
